@@ -45,6 +45,8 @@ MAP = {'central': '3-point', 'forward': '2-point', 'complex': 'cs', 'backward': 
 
 
 def run_wrapper():
+    from .common import defaults_facts
+    defaults_facts(['nd_scipy._Common.__init__'])
     import numdifftools.nd_scipy as ns
     calls = []
 
